@@ -4,6 +4,8 @@
                   (extracted coq/Gen/GenCompile.v)                                   -> kind "model"
      X line     : the AST the independent translator (tools/pest2v.py) read from grammar.pest, to be
                   equal to the AST pest_meta read (A line)                           -> kind "model"
+     E lines    : a public entry of the checked-in parser vs the generated parser it wraps / vs pest_vm,
+                  printed only when they differ                                      -> kind "spec"
      D lines    : checked-in parser vs pest_vm on parse_and_optimize(grammar.pest) [vs compiled freshly
                   generated parsers, one further column each]                        -> kind "spec"
                   checked-in parser vs exec over gen_env of the optimized meta-grammar -> kind "model"
@@ -15,6 +17,10 @@ open Gen_common
 type string = Stdlib.String.t
 
 let fuel = nat_of_int 40000
+(* what the harness appended about the text a result refers to (after " ## ", only when checked-in parser and VM differ in it) is neither
+   modelled nor observed by the compiled fresh parsers *)
+let base s = let n = String.length s in
+  let rec go i = if i + 4 > n then s else if String.sub s i 4 = " ## " then String.sub s 0 i else go (i + 1) in go 0
 let norm s = if String.length s >= 5 && String.sub s 0 5 = "Panic" then "Panic" else s
 
 let () =
@@ -41,6 +47,11 @@ let () =
       og := ogrammar_of os; osexp := os;
       names := Array.of_list (List.map (fun r -> string_of_bytes r.oname) !og);
       Printf.printf "#META\trules=%d\tin_H=%d\n" (List.length !og) (if in_H !og false then 1 else 0)
+    | "E" :: entry :: rule :: inp :: x :: y :: who :: _ ->
+      (* a public entry of the checked-in parser (pest_meta::parser::parse, parse_and_optimize) against the generated parser it wraps /
+         against pest_vm: printed by the harness only when they differ *)
+      let nrm s = if String.length s >= 5 && String.sub s 0 5 = "Panic" then "Panic" else s in
+      if nrm x <> nrm y then begin incr spec; report "spec" (Printf.sprintf "r=%s in=%s against=%s entry=%s" rule inp who entry) x y end
     | "D" :: rule :: inp :: a :: b :: rest ->
       incr cases;
       let a = norm a and b = norm b in
@@ -49,6 +60,7 @@ let () =
       (* further columns: freshly generated parsers (1st: the token stream of the in-tree derive_parser compiled as source; 2nd: #[derive(Parser)]) *)
       List.iteri (fun i c -> incr fresh; let c = norm c in
         let who = if i = 0 then " against=fresh" else " against=fresh-derive" in
+        let a = base a in
         if c = "Custom call limit reached" && a <> c then begin
           (* only the fresh parsers run under a call limit (rust/harness/src/c14_fresh_main.rs.in): not an ordinary disagreement *)
           incr limited; if !limited <= 20 then Printf.printf "LIMIT\t%s%s\t%s\n" case who a end
@@ -57,7 +69,7 @@ let () =
         incr modelled;
         let input = unhex inp in
         let m = (try obs_of !names (run_state cfg (gen_env !og []) fuel (gen_start !og [] (bytes_of rule)) input None false) with Stack_overflow -> "Fuel") in
-        if m <> "Fuel" && m <> a then report "model" (case ^ " side=generated") a m
+        if m <> "Fuel" && m <> base a then report "model" (case ^ " side=generated") a m
       end
     | _ -> ());
   Printf.printf "#RUNNER\tcases=%d\tmodelled=%d\ttv=%d\tmismatches=%d\tspec_differences=%d\tfresh_compared=%d\tfresh_limited=%d\n" !cases !modelled !tv !mismatches !spec !fresh !limited
